@@ -19,6 +19,10 @@ def group(name, **spec):
 def K(*a, **kw):
     h = H(*a, **kw)
     assert h.group in GROUPS, h.group
+    if h.fs_array is None:
+        h.fs_array = GROUPS[h.group].get("fs_array")
+    if h.fs_array:
+        h.assumptions.append("CBMC --max-field-sensitivity-array-size %d (precision of constant propagation only; does not change semantics)" % h.fs_array)
     assert all(x.name != h.name for x in HARNESSES), "duplicate harness " + h.name
     # --harness is a substring filter: no harness name may contain another one
     HARNESSES.append(h)
